@@ -180,3 +180,23 @@ func (p *Program) AllRepoFuncs() []*ssa.Function {
 	sort.Slice(out, func(i, j int) bool { return out[i].String() < out[j].String() })
 	return out
 }
+
+// Exported: exported package-level function, or exported method of an
+// exported type.
+func Exported(fn *ssa.Function) bool {
+	o := fn.Object()
+	if o == nil || !o.Exported() {
+		return false
+	}
+	if recv := fn.Signature.Recv(); recv != nil {
+		t := recv.Type()
+		if pt, ok := t.(*types.Pointer); ok {
+			t = pt.Elem()
+		}
+		if n, ok := t.(*types.Named); ok {
+			return n.Obj().Exported()
+		}
+		return false
+	}
+	return true
+}
